@@ -89,17 +89,31 @@ def pat_bindings(p):
     return out
 
 
+# Variants of two-variant enums of the analysed crate that are isomorphic to Option<T> (one unit variant, one variant with a
+# single field): filled by sir.Facts; such an enum is read as an Option everywhere (`Total::Empty` = None, `Total::Running(x)` = Some(x)).
+OPTION_LIKE_SOME = set()
+OPTION_LIKE_NONE = set()
+
+
+def _is_some_path(name):
+    return name == 'Some' or name in OPTION_LIKE_SOME
+
+
+def _is_none_path(name):
+    return name == 'None' or name in OPTION_LIKE_NONE
+
+
 def pat_is_some(p):
     """If the pattern is `Some(inner)` return inner, else None."""
-    if p['k'] == 'ptuplestruct' and canon(p['path']['def']) == 'Some' and len(p['pats']) == 1:
+    if p['k'] == 'ptuplestruct' and _is_some_path(canon(p['path']['def'])) and len(p['pats']) == 1:
         return p['pats'][0]
-    if p['k'] == 'pstruct' and canon(p['path']['def']) == 'Some' and len(p['fields']) == 1:
+    if p['k'] == 'pstruct' and _is_some_path(canon(p['path']['def'])) and len(p['fields']) == 1:
         return p['fields'][0]['pat']
     return None
 
 
 def pat_is_none(p):
-    return p['k'] in ('ppath', 'pstruct', 'ptuplestruct') and canon(p['path']['def']) == 'None'
+    return p['k'] in ('ppath', 'pstruct', 'ptuplestruct') and _is_none_path(canon(p['path']['def']))
 
 
 def is_float_ty(ty, float_params=('T',)):
